@@ -363,4 +363,103 @@ theorem Leaf.upsert_ok (h : SWO lt) (P : Params K) (hP : P.lt = lt) (hpad : ∀ 
         simp only [List.mem_append, List.mem_singleton] at hkm
         exact hkm
 
+theorem erase_mid_eqv (h : SWO lt) (A B : List (K × V)) (k key : K) (v : V)
+    (hA : AllLt lt A key) (he : eqv lt key k = true) (hB : AllGt lt B key) :
+    Spec.erase lt (A ++ (k, v) :: B) key = A ++ B := by
+  rw [Spec.erase_append, Spec.erase_of_allLt h A key hA]
+  have : Spec.erase lt ((k, v) :: B) key = Spec.erase lt B key := by
+    simp [Spec.erase, he]
+  rw [this, Spec.erase_of_allGt h B key hB]
+
+theorem erase_none (h : SWO lt) (L : List (K × V)) (key : K)
+    (hL : ∀ p ∈ L, eqv lt key p.1 = false) : Spec.erase lt L key = L := by
+  unfold Spec.erase
+  rw [List.filter_eq_self]
+  intro p hp
+  simp [hL p hp]
+
+theorem sorted_delete_mid {l : List K} (hs : Sorted lt l) (g : Nat) :
+    Sorted lt (l.take g ++ l.drop (g + 1)) := by
+  rw [← List.eraseIdx_eq_take_drop_succ]
+  exact List.Pairwise.sublist (List.eraseIdx_sublist l g) hs
+
+/-- result of the leaf `deleteKey` -/
+theorem Leaf.deleteKey_ok (h : SWO lt) (P : Params K) (hP : P.lt = lt)
+    (l : Leaf K V) (minSize : Nat) (key : K)
+    (hs : Sorted lt l.keys) (hlen : l.keys.length = l.vals.length) :
+    ∃ (l' : Leaf K V) (small : Bool), Leaf.deleteKey P l minSize key = .ok (l', small) ∧
+      (small = true → l'.keys.length < minSize) ∧
+      (small = false → l' = l ∨ minSize ≤ l'.keys.length) ∧
+      l'.id = l.id ∧ l'.next = l.next ∧
+      Sorted lt l'.keys ∧ l'.keys.length = l'.vals.length ∧
+      l'.keys.zip l'.vals = Spec.erase lt (l.keys.zip l.vals) key ∧
+      l'.keys.length ≤ l.keys.length ∧ l.keys.length ≤ l'.keys.length + 1 ∧
+      (∀ k ∈ l'.keys, k ∈ l.keys) := by
+  subst hP
+  unfold Leaf.deleteKey
+  by_cases hnil : l.keys = []
+  · refine ⟨l, false, ?_, by simp, fun _ => Or.inl rfl, rfl, rfl, hs, hlen, ?_, Nat.le_refl _, by omega,
+      fun k hk => hk⟩
+    · simp only [hnil, searchGE_nil]
+      rfl
+    · simp [hnil, Spec.erase]
+  · obtain ⟨hg, A, B, hAdef, hBdef, hsplit, hA, hcase⟩ := searchGE_cases h key l.keys l.vals hs hlen hnil
+    have hgv : searchGE P.lt key l.keys < l.vals.length := by omega
+    simp only []
+    rw [List.getElem?_eq_getElem hg]
+    simp only
+    rcases hcase with ⟨he, hB⟩ | ⟨hk, hB⟩ | ⟨hk, hlastidx, hBnil⟩
+    · -- the key is present at index g: it is removed
+      have hnl : ¬ l.vals.length ≤ searchGE P.lt key l.keys := by omega
+      simp only [he, Bool.not_true, Bool.false_eq_true, if_false, hnl]
+      rw [deleteIdiom_eq _ _ hg, deleteIdiom_eq _ _ hgv]
+      refine ⟨{ l with keys := l.keys.take (searchGE P.lt key l.keys) ++ l.keys.drop (searchGE P.lt key l.keys + 1),
+                       vals := l.vals.take (searchGE P.lt key l.keys) ++ l.vals.drop (searchGE P.lt key l.keys + 1) },
+        _, rfl, ?_, ?_, rfl, rfl, ?_, ?_, ?_, ?_, ?_, ?_⟩
+      · intro hsm
+        exact of_decide_eq_true hsm
+      · intro hsm
+        right
+        exact Nat.le_of_not_lt (of_decide_eq_false hsm)
+      · exact sorted_delete_mid hs _
+      · simp only [List.length_append, List.length_take, List.length_drop]; omega
+      · simp only
+        rw [hsplit, erase_mid_eqv h A B _ key _ hA he hB,
+          zip_surgery _ _ _ _ (by simp only [List.length_take]; omega), hAdef, hBdef]
+      · simp only [List.length_append, List.length_take, List.length_drop]; omega
+      · simp only [List.length_append, List.length_take, List.length_drop]; omega
+      · intro k hkm
+        simp only [List.mem_append] at hkm
+        rcases hkm with hm | hm
+        · exact List.mem_of_mem_take hm
+        · exact List.mem_of_mem_drop hm
+    · -- key is strictly below keys[g]: absent
+      have he : eqv P.lt key l.keys[searchGE P.lt key l.keys] = false := by simp [eqv, hk]
+      simp only [he, Bool.not_false, if_true]
+      refine ⟨l, false, rfl, by simp, fun _ => Or.inl rfl, rfl, rfl, hs, hlen, ?_, Nat.le_refl _, by omega,
+        fun k hk => hk⟩
+      rw [erase_none h]
+      rw [hsplit]
+      intro p hp
+      rcases List.mem_append.mp hp with hm | hm
+      · have := hA p hm
+        simp [eqv, this]
+      · rcases List.mem_cons.mp hm with e | hm
+        · subst e; exact he
+        · have := hB p hm
+          simp [eqv, this]
+    · -- every key is strictly below key: absent
+      have he : eqv P.lt key l.keys[searchGE P.lt key l.keys] = false := by simp [eqv, hk]
+      simp only [he, Bool.not_false, if_true]
+      refine ⟨l, false, rfl, by simp, fun _ => Or.inl rfl, rfl, rfl, hs, hlen, ?_, Nat.le_refl _, by omega,
+        fun k hk => hk⟩
+      rw [erase_none h]
+      rw [hsplit, hBnil]
+      intro p hp
+      rcases List.mem_append.mp hp with hm | hm
+      · have := hA p hm
+        simp [eqv, this]
+      · simp only [List.mem_singleton] at hm
+        subst hm; exact he
+
 end Gobptree
